@@ -480,6 +480,23 @@ def check_option(ai, vi, fmt, mode):
         _before, _w = _parse([], OTHER_INI)
         got, w1 = _parse([], text)
         what = "a config file means something else when another config file was read before it"
+    elif mode == 4:
+        # the same action set through TWO of its keys in one file (e.g. add-package and add-module): both settings count, in file order
+        keys = [k for k in FPARSER.get_possible_config_keys(a) if not k.startswith("-")]
+        opts2 = [o for o in a.option_strings if o.startswith("--")]
+        if len(keys) < 2 or len(opts2) < 2 or _kind(a) not in ("append", "str", "int"):
+            return True
+        other = vals[(vi + 1) % len(vals)]
+        def one(key, val):
+            t = _file(a, val, fmt)
+            return t.split("\n", 1)[1].replace(_key(a) + " =", key + " =", 1)
+        text = _file(a, v, fmt).split("\n", 1)[0] + "\n" + one(keys[0], v) + one(keys[1], other)
+        def cli_for(opt, val):
+            return ["%s=%s" % (opt, x) for x in val] if _kind(a) == "append" else ["%s=%s" % (opt, val)]
+        cli = cli_for("--" + keys[0], v) + cli_for("--" + keys[1], other)
+        got, w1 = _parse([], text)
+        want, w2 = _parse(cli)
+        what = "two keys of one option in a config file do not mean what the two options mean on the command line"
     elif mode == 0:
         got, w1 = _parse([], text)
         want, w2 = _parse(cli)
@@ -517,20 +534,20 @@ def check_option(ai, vi, fmt, mode):
     parts=lambda: list(range(NACT)), timeout=(200, 900), cls="E", tracing="concrete-after-choice", twin="first",
     code=["pydoctor.options.get_parser (every action of the real parser)", "pydoctor._configparser.TomlConfigParser.parse", "IniConfigParser.parse", "CompositeConfigParser.parse", "ValidatorParser.parse",
           "configargparse conversion of config items to command-line arguments"],
-    bounds={"quick": "every option of the argument parser (41) x representative values of its kind (flags on/off, counts 0..3, ints 0/1/7/12, 10 strings incl. a Windows path, 6 lists incl. items with inner spaces, tabs and commas) x {pyproject.toml, pyproject.toml with literal strings and trailing comments, ini with bare values, ini with quoted / python-list values} x {file alone == command line alone, command line overrides file, unknown key warned and ignored, same meaning after another INI-only file was read by the same parser}; file content passed in memory",
+    bounds={"quick": "every option of the argument parser (41) x representative values of its kind (flags on/off, counts 0..3, ints 0/1/7/12, 10 strings incl. a Windows path, 6 lists incl. items with inner spaces, tabs and commas) x {pyproject.toml, pyproject.toml with literal strings and trailing comments, ini with bare values, ini with quoted / python-list values} x {file alone == command line alone, command line overrides file, unknown key warned and ignored, same meaning after another INI-only file was read by the same parser, one option set through two of its keys in one file}; file content passed in memory",
             "thorough": "same"},
     stubs=["the parser's default config file list is emptied on the harness's own parser instance; file content is handed over through configargparse's config_file_contents"],
     outside="reading the files from disk / cwd lookup, the -c/--config option, conversion of the namespace to Options (converters), values outside the tables",
 )
 def h_file_equals_cli(vi: int, fmt: int, mode: int) -> bool:
     """
-    pre: 0 <= vi <= 9 and 0 <= fmt <= 3 and 0 <= mode <= 3
+    pre: 0 <= vi <= 9 and 0 <= fmt <= 3 and 0 <= mode <= 4
     post: _
     """
     ai = PART if PART is not None else 11
     vi = pick(vi, 0, 9)
     fmt = pick(fmt, 0, 3)
-    mode = pick(mode, 0, 3)
+    mode = pick(mode, 0, 4)
     with NoTracing():
         if vi >= len(_values(ACTIONS[ai])):
             return True
